@@ -38,6 +38,7 @@ class Console:
         self.buf = {}
         self.requests = []        # (tick, cid, key)
         self.answered = 0
+        self.beats = 0
 
     def on_write(self, cid, data):
         env = self.env
@@ -76,10 +77,23 @@ class Console:
         frame = env.frame(mid, payload)
         delay = sc.get("answer_delay", 0)
         conn = env.net.conns[cid]
+        is_beat = key == (0x1F, 0x30) and env.hb_started
+        if is_beat:
+            env.hb_events.append(("beat", ticks(env.loop.time())))
+            pattern = sc.get("version_answers")
+            if pattern is not None:
+                i = self.beats
+                self.beats += 1
+                d = pattern[i] if i < len(pattern) else pattern[-1]
+                if d is None:
+                    return
+                delay = d
 
         def deliver():
             if not conn.conn_lost and not conn.eof_sent:
                 self.answered += 1
+                if is_beat:
+                    env.hb_events.append(("resp", ticks(env.loop.time())))
                 conn.peer_send(frame)
         if delay:
             env.loop.call_later(delay * TICK, deliver)
@@ -124,8 +138,40 @@ class Env:
 
         async def on_conn(*, connected):
             self.notifications.append((ticks(self.loop.time()), connected))
+            if self.hb_started:
+                self.hb_events.append(("conn", 1 if connected else 0, ticks(self.loop.time())))
         self.sock.subscribe_on_connection_changed(on_conn)
         self.at = cls(self.loop, "at-id-1", "serial-1", name, self.sock)
+        # heartbeat observation (C08 at API level): start/stop of the manager and the resets IT asks for
+        self.hb_started = False
+        self.hb_events = []
+        hb = self.at._heartbeat_manager
+        env = self
+        orig_start, orig_stop = hb.start, hb.stop
+
+        async def start():
+            await orig_start()
+            if not env.hb_started:
+                env.hb_started = True
+                env.hb_events.append(("start", ticks(env.loop.time())))
+                env.hb_events.append(("conn", 1 if env.sock.is_connected else 0, ticks(env.loop.time())))
+
+        async def stop():
+            if env.hb_started:
+                env.hb_started = False
+                env.hb_events.append(("stop", ticks(env.loop.time())))
+            await orig_stop()
+        hb.start, hb.stop = start, stop
+
+        class SocketSeenByHeartbeat:
+            def __getattr__(self, name):
+                return getattr(env.sock, name)
+
+            async def reset_connection(self):
+                env.hb_events.append(("reset", ticks(env.loop.time())))
+                await env.sock.reset_connection()
+                env.hb_events.append(("resetDone", ticks(env.loop.time())))
+        hb._socket = SocketSeenByHeartbeat()
 
     def frame(self, mid, payload):
         hdr = self.Hdr(0xB0, 0x90 if mid == 0x1F else 0x80, 1, mid, len(payload))
@@ -170,6 +216,18 @@ def run(gen, scenario, moment=None, reinit=False, idle=8000):
             loop.call_later(t * TICK, lambda c=call: loop.create_task(_call(env, c)))
         for (t, what) in scenario.get("faults", []):
             loop.call_later(t * TICK, lambda w=what: _fault(env, w))
+        if scenario.get("chatter"):
+            # unsolicited traffic (names, abilities, AC status, timer status, zone/group status in turn): not heartbeat responses
+            keys = [k for k in env.payloads if k != (0x1F, 0x30)]
+            period = scenario["chatter"]
+
+            def chatter(i=0):
+                c = env.net.conns[-1] if env.net.conns else None
+                if c is not None and not c.conn_lost and not c.eof_sent and env.hb_started:
+                    mid, payload = env.payloads[keys[i % len(keys)]]
+                    c.peer_send(env.frame(mid, payload))
+                loop.call_later(period * TICK, chatter, i + 1)
+            loop.call_later(period * TICK, chatter)
         if moment is None:
             await asyncio.sleep(scenario.get("horizon", 200) * TICK)
             obs["baseline_events"] = len(env.events)
@@ -177,6 +235,7 @@ def run(gen, scenario, moment=None, reinit=False, idle=8000):
             obs["init_result"] = init_task.result() if init_task.done() and not init_task.cancelled() else None
             obs["view"] = view_at(at)
             obs["event_log"] = list(env.events)
+            obs["hb_events"] = list(env.hb_events) + [("stop", ticks(loop.time()))]
             init_task.cancel()
             try:
                 await at.shutdown()
